@@ -5,6 +5,7 @@ distinct parameter vectors and datasets are pushed through both, and every row o
 result must equal what the unbatched model returns for that row alone.
 """
 import copy
+import math
 import random
 
 from .. import gen
@@ -21,7 +22,7 @@ RULE = (
     "component and the spec has a bin-wise modifier in a channel that is not the first; distinct by (shape signature, N, backend)."
 )
 ASSUMPTIONS = [
-    "oracle = the unbatched model on each row (same backend); tolerance 1e-12 relative in 64-bit (clean code is bit-identical), 1e-5 in 32-bit",
+    "oracle = the unbatched model on each row (same backend); tolerance 1e-12 relative in 64-bit (clean code is bit-identical), 1e-5 in 32-bit; log-densities (and densities, relatively) get in addition 8 eps x the summed magnitude of the Poisson terms n ln(lambda), lambda, lnGamma(n+1) of the row (float32 noise on a 4600-event bin is 3e-3 absolute on the log-density)",
     "batch sizes above 8 are not explored",
 ]
 REQUIRED = ("expected_rows", "logpdf_rows", "sample_shape")
@@ -80,16 +81,27 @@ def check_case(case, shard):
     batched = pyhf.Model(copy.deepcopy(spec), batch_size=N, **kw)
     tp, td = tb.astensor(rows_p), tb.astensor(rows_d)
 
-    def close(a, b, is_density=False):
+    # a log-density is a sum of terms n ln(lambda) - lambda - lnGamma(n+1) that are individually much larger than the
+    # result: its rounding error scales with their magnitude (row 4608 events: terms of 4e4, float32 noise 3e-3), not
+    # with the result.  Per-row magnitude of the main terms, from the unbatched model's own rates:
+    eps = 2.220446049250313e-16 if case["precision"] == "64b" else 1.1920929e-07
+    term_scale = []
+    for r_ in range(N):
+        lam = [max(float(x), 1e-30) for x in to_np(single.expected_actualdata(tb.astensor(rows_p[r_])))]
+        term_scale.append(sum(abs(n * math.log(l)) + l + math.lgamma(n + 1) for n, l in zip(rows_d[r_][: L.nmaindata], lam)))
+
+    def close(a, b, is_density=False, row=None, is_log=False):
         a, b = np.asarray(a, dtype=float), np.asarray(b, dtype=float)
         if a.shape != b.shape:
             return False
         both_bad = ~np.isfinite(a) & ~np.isfinite(b)
         r = rel
+        if is_log and row is not None:
+            return bool(np.all((np.abs(a - b) <= r * (np.abs(a) + np.abs(b)) + 8 * eps * term_scale[row]) | both_bad | (a == b)))
         if is_density:
             # a density is exp(log-density): its relative error is the absolute error of the log
             with np.errstate(all="ignore"):
-                r = rel * (1 + np.abs(np.log(np.abs(a) + 1e-300))) * 4
+                r = rel * (1 + np.abs(np.log(np.abs(a) + 1e-300))) * 4 + (8 * eps * term_scale[row] if row is not None else 0.0)
         ok = np.abs(a - b) <= r * (np.abs(a) + np.abs(b)) + (1e-300 if case["precision"] == "64b" else 2e-37)
         return bool(np.all(ok | both_bad | (a == b)))
 
@@ -118,7 +130,7 @@ def check_case(case, shard):
             pr, dr = tb.astensor(rows_p[r]), tb.astensor(rows_d[r])
             gs = to_np(fn(single, pr, dr))
             gs = gs.reshape(gb[r].shape) if gs.size == gb[r].size else gs
-            if not close(gb[r], gs, is_density=(name == 'pdf')):
+            if not close(gb[r], gs, is_density=(name == 'pdf'), row=r, is_log=name in ("logpdf", "mainlogpdf")):
                 shard.violate(f"C10/{name}-row-mismatch", f"row {r} of batched {name} = {np.asarray(gb[r]).ravel()[:6].tolist()} but unbatched gives {np.asarray(gs).ravel()[:6].tolist()}; {ctx}", dict(case, rows_p=rows_p, rows_d=rows_d), mon)
                 break
             shard.ok(mon)
